@@ -41,6 +41,29 @@ def calls_any(body, names):
     return bool(cs & set(names))
 
 
+def add_delegators(ctx, out, expected):
+    """an expected entry point written as a wrapper of another entry point of the same family
+    (`try_send(d)` = `try_send_option(&mut Some(d))`) belongs to the family too: its paths contain the callee, spliced"""
+    keys = {b.key for b in out}
+    changed = True
+    while changed:
+        changed = False
+        for n in expected:
+            if n in keys:
+                continue
+            b = ctx.facts.bodies.get(n)
+            if b is None:
+                continue
+            for bb, t in b.all_calls():
+                fn = t.get('fn')
+                if fn and fn.get('local') and fn['path'] in keys and fn['path'] in expected:
+                    out.append(b)
+                    keys.add(n)
+                    changed = True
+                    break
+    return out
+
+
 def send_bodies(ctx):
     """bodies outside the helper modules that touch the send side of the channel state"""
     trig = {CI + 'next_recv', CI + 'push_send', TERM + 'send'}
@@ -50,7 +73,7 @@ def send_bodies(ctx):
             continue
         if calls_any_deep(ctx, b, trig):
             out.append(b)
-    return out
+    return add_delegators(ctx, out, expected_send(ctx))
 
 
 def calls_any_deep(ctx, body, names, depth=0):
@@ -76,7 +99,7 @@ def recv_bodies(ctx):
             continue
         if calls_any_deep(ctx, b, trig):
             out.append(b)
-    return out
+    return add_delegators(ctx, out, expected_recv(ctx))
 
 
 def expected_send(ctx):
